@@ -36,8 +36,9 @@
                        code itself since ef188d6 / 1a8f8bf).  The other bits mark what the proofs do not
                        cover yet: 2: no walk up through, and no descent of processNode / FindLast... into,
                        a balancing capture; 4: no walk up out of an atomic group the walk itself descended
-                       into (a successor of the loop); 8: FindLastExpressionInLoopForAutoAtomic finds nothing
-                       when eliminateEndingBacktracking asks (processNode's use is covered).
+                       into (a successor of the loop); 8: reduceAtomic's reordering does not take a One / Multi
+                       node with the RightToLeft bit as the start of a branch (the code tests the bit on the
+                       Atomic node only; no parsed tree has such a node below a left-to-right Atomic).
      lite           the mandatory reducers are replaced by the identity wherever a gated branch re-reduces
                        a node (the proofs are about the lite pass; [lite = full] is a per-tree check).
    Oracles: cat_in (Model/CharClass.v), is_word_char = syntax.IsWordChar, is_ecma_word_char =
@@ -431,11 +432,12 @@ Definition fo_fbs (x : rnode) : res (option rnode) :=
 Definition fo_first_char (b : rnode) : res Z :=
   if is_one_family (n_t b) then Ok (n_ch b)
   else match n_str b with c :: _ => Ok c | [] => Crash 48 end.
-Definition fo_key (x : rnode) : res (option Z * rnode) :=
+Definition fo_key (strict : Z) (x : rnode) : res (option Z * rnode) :=
   do s <- fo_fbs x ;
   match s with
   | None => Ok (None, x)
-  | Some b => do c <- fo_first_char b ; Ok (Some c, x)
+  | Some b => if Z.testbit strict 3 && useRTL (n_o b) then Ok (None, x)
+              else do c <- fo_first_char b ; Ok (Some c, x)
   end.
 
 (* 631-636: trim the branches after an Empty that is neither first nor last ([l] = branches[1:]) *)
@@ -575,7 +577,7 @@ Fixpoint fo_ee (fuel : nat) (g : Z) (strict : Z) (lite : bool) (par_atomic : boo
       let as_loop (nd : rnode) : res rnode :=
         if n_n nd =? 1 then first_kid false nd
         else
-          do r <- fo_loop_last (Z.testbit strict 3) strict nd (fun first lastc =>
+          do r <- fo_loop_last false strict nd (fun first lastc =>
                     do b <- fo_cbma f strict lastc first [] false false false ;
                     if b then (do l' <- fo_ee f g strict lite false lastc ; Ok (Some l')) else Ok None) ;
           match r with Some nd' => Ok nd' | None => Ok nd end in
@@ -741,7 +743,7 @@ with fo_reduce (fuel : nat) (g : Z) (strict : Z) (lite : bool) (mode : Z) (ptype
               | b0 :: _ =>
                   if n_t b0 =? T_Empty then Ok (mk_node T_Empty (n_o child))          (* 623 *)
                   else
-                    do keyed <- fo_map_res fo_key (fo_trim (n_kids child)) ;
+                    do keyed <- fo_map_res (fo_key strict) (fo_trim (n_kids child)) ;
                     let (brs, reordered) := fo_reorder (S (length keyed)) keyed in
                     let child1 := set_kids child brs in
                     do child2 <- (if reordered then fo_reduce f g strict lite 0 T_Atomic child1 else Ok child1) ;
